@@ -188,6 +188,8 @@ def run(cx, rep):
 
     # ---------------------------------------------------------------- C06.6
     clause_simplification_rule(cx, rep, F_, "C06.6")
+    # ---------------------------------------------------------------- C06.7
+    variant_handling_rule(cx, rep, F_, "C06.7")
 
     # ---------------------------------------------------------------- C06.5
     rep.rule("C06.5", "the pairwise merge of two tag-sorted tables filters every entry by its own tag")
@@ -655,6 +657,71 @@ def merge_filter_rule(cx, rep, F_, rid):
                            g, ", ".join(sorted(v_roots)), ", ".join(sorted(e_roots))),
                        "%s:%s" % (f.file, x["line"]), sample={"fn": g, "test_reads": sorted(e_roots), "emitted_reads": sorted(v_roots)})
     rep.floor(rid, "masked emissions of the pairwise merge", n, 3)
+
+
+# ---------------------------------------------------------------------------------------------------- C06.7
+def variant_handling_rule(cx, rep, F_, rid):
+    """The per-tag operations return a three-way answer: all of the tag, none of it, or a proper subtype; the operations
+    on whole types merge those answers into (bitset of full tags, list of proper subtypes).  Dropping a `none` is
+    right - it contributes nothing.  Dropping an `all` loses every value of the tag: if a diagram arm of the per-tag
+    intersection can answer `all` (a diagram that collapsed to the True leaf) while the whole-type intersection keeps
+    proper answers only, `X & Y` loses all objects for tautological X, Y.  Decided per operation: the answer variants
+    the DIAGRAM arms of ProperSubtypeOps::<op> can construct (directly or through constructor helpers that return the
+    answer type), except `none`, are matched by a pattern in SemTypeOps::<op>.  (The literal-list arms go through
+    constructors that can also answer `all`, but not from proper operands; they are the business of C06.2.)"""
+    rep.rule(rid, "the whole-type operations handle every answer the per-tag diagram operations can give")
+    padt = next((a for k, a in F_.adts.items() if k.endswith("::ProperSubtype")), None)
+    if padt is None:
+        rep.anchor_missing(rid, "ProperSubtype")
+        return
+    diagram = {v["name"] for v in padt["variants"] if len(v["fields"]) == 1 and "Bdd" in v["fields"][0]["ty"]}
+    n = 0
+
+    def ctor_variants(e, crate, depth=0, seen=None):
+        seen = seen if seen is not None else set()
+        out = set()
+        for x in walk(e):
+            if x["k"] == "Call":
+                cal = x.get("callee") or ""
+                m = re.search(r"SubType::(True|False|Proper)$", cal)
+                if m:
+                    out.add(m.group(1))
+                    continue
+                tg = F_._callee_gid(crate, cal)
+                hf = F_.fns.get(tg)
+                if tg in F_.hir and tg not in seen and depth < 4 and hf is not None and "SubType" in (hf.output or "") and "ProperSubtype" not in (hf.output or "").replace("Rc<", ""):
+                    seen.add(tg)
+                    out |= ctor_variants(F_.hir[tg]["body"], crate, depth + 1, seen)
+            elif x["k"] == "MethodCall":
+                tg = F_._callee_gid(crate, x.get("resolved") or x.get("callee") or "")
+                hf = F_.fns.get(tg)
+                if tg in F_.hir and tg not in seen and depth < 4 and hf is not None and re.search(r"(^|[<: ])SubType\b", hf.output or ""):
+                    seen.add(tg)
+                    out |= ctor_variants(F_.hir[tg]["body"], crate, depth + 1, seen)
+        return out
+    for op in ("intersect", "union", "diff"):
+        prod = next((g for g in F_.hir if g.endswith("ProperSubtypeOps>::%s" % op)), None)
+        cons = next((g for g in F_.hir if g.endswith("SemTypeOps>::%s" % op)), None)
+        if prod is None or cons is None:
+            rep.anchor_missing(rid, "ProperSubtypeOps / SemTypeOps ::%s" % op)
+            continue
+        produced = set()
+        crate = F_.fns[prod].crate
+        for m in walk(F_.hir[prod]["body"]):
+            if m["k"] != "Match":
+                continue
+            for a in m["arms"]:
+                vs = {(p_.get("def") or "").rsplit("::", 1)[-1] for p_ in walk(a["pat"]) if p_["k"] in ("P.TupleStruct", "P.Struct") and "ProperSubtype::" in (p_.get("def") or "")}
+                if vs & diagram:
+                    produced |= ctor_variants(a["body"], crate)
+        handled = {(p_.get("def") or "").rsplit("::", 1)[-1] for p_ in walk(F_.hir[cons]["body"]) if p_["k"] in ("P.TupleStruct", "P.Struct") and re.search(r"SubType::(True|False|Proper)$", p_.get("def") or "")}
+        n += 1
+        lost = sorted(produced - {"False"} - handled)
+        rep.ob(rid, "%s/handles-every-answer" % op, not lost,
+               "the diagram arms of ProperSubtypeOps::%s can answer %s, which SemTypeOps::%s has no pattern for (it matches %s): such an answer is dropped, and with it every value of the tag - e.g. the intersection of two tautological unions of object types contains no object" % (
+                   op, lost, op, sorted(handled)),
+               F_.fns[cons].loc(), sample={"op": op, "diagram_arms_can_answer": sorted(produced), "whole_type_op_matches": sorted(handled)})
+    rep.floor(rid, "operations compared", n, 3)
 
 
 # ---------------------------------------------------------------------------------------------------- C06.6
